@@ -176,14 +176,23 @@ Definition reg_entry (path : list Z) (uid mtime : Z) : entry :=
   mkEntry (Some path) None None None None (IFREG + 420) uid 0 (Some 0) mtime 0 0 1 0 [].
 Theorem C10_ok_means_exact_ustar_pathname_refuted : exists e,
   fst (ustar_header e (-1) true) = 0 /\ no_nul (ob (e_path e)) /\
-  ustar_join (slice R_tar_prefix_offset R_tar_prefix_size (snd (ustar_header e (-1) true)))
-             (slice R_tar_name_offset R_tar_name_size (snd (ustar_header e (-1) true))) <> ob (e_path e).
+  ustar_join_gen false (slice R_tar_prefix_offset R_tar_prefix_size (snd (ustar_header e (-1) true)))
+                       (slice R_tar_name_offset R_tar_name_size (snd (ustar_header e (-1) true))) <> ob (e_path e).
 Proof.
   exists (reg_entry dslash_path 0 0). split; [vm_compute; reflexivity|]. split.
   - unfold no_nul. vm_compute. repeat constructor; discriminate.
   - vm_compute. discriminate.
 Qed.
 Print Assumptions C10_ok_means_exact_ustar_pathname_refuted.
+(* (the statement above is about the reader that joins prefix and name without a '/' when the prefix ends with one -
+   switch USTAR_join_always_slash = false; with fixes/C10-ustar-split-double-slash.diff the reader always puts the
+   '/' and the side condition is not needed:) *)
+Theorem C10_ok_means_exact_ustar_pathname_always_slash : forall e tt, fst (ustar_header e tt true) = 0 ->
+  no_nul (ob (e_path e)) ->
+  ustar_join_gen true (slice R_tar_prefix_offset R_tar_prefix_size (snd (ustar_header e tt true)))
+                      (slice R_tar_name_offset R_tar_name_size (snd (ustar_header e tt true))) = ob (e_path e).
+Proof. exact ustar_ok_pathname_always. Qed.
+Print Assumptions C10_ok_means_exact_ustar_pathname_always_slash.
 
 (* a refused ustar / v7tar entry writes nothing at all *)
 Theorem C10_refused_writes_nothing_ustar : forall full e,
